@@ -59,21 +59,29 @@
 (* and one CASE line per value: v, the classification, the model's         *)
 (* Validate, and -- where the default setting is not covered by the        *)
 (* statement -- the key lists the reader model predicts (diagnostic).      *)
+(* MC_Deb822Value_quick.cfg: length <= 5 (19 608 values);                  *)
+(* MC_Deb822Value.cfg: length <= 6 (137 257 values);                       *)
+(* MC_Deb822Value_zone.cfg (informational): ZoneWhatIf = TRUE computes for *)
+(* the "zone" values the read-backs they would have if accepted (zs).      *)
 (*                                                                         *)
-(* Spec-level negative controls (constants switching in a weaker validator;*)
-(* each was run and makes TLC report Sound violated; c08.py re-runs them   *)
-(* in every check):                                                        *)
+(* Spec-level negative controls (MC_Deb822Value_neg.cfg with one constant  *)
+(* switched to TRUE; each was run and makes TLC report Sound violated;     *)
+(* c08.py re-runs them in every check):                                    *)
 (*   NoIndentRule = TRUE   (drop "each line must start with whitespace")   *)
 (*                         -> <<10, 120, 58>> "\nx:" injects field x       *)
 (*   AllowEndLF   = TRUE   (drop the endswith('\n') test)                  *)
-(*                         -> <<10>>/<<120, 10>> split the paragraph       *)
+(*                         -> <<10>> splits the paragraph                  *)
 (*   ValidateLFOnly = TRUE (split('\n') instead of splitlines())           *)
-(*                         -> <<10, 13>> "\n\r" ends the paragraph (str  *)
-(*                            input), <<13, 120, 58>> "\rx:" injects x     *)
-(*   ReaderNoWsRule = TRUE in the READER (ws = TRUE behaviour although     *)
-(*                         ws = FALSE was asked) -> Sound violated by a    *)
-(*                         blank continuation line, e.g. <<10, 9>>: the    *)
-(*                         conditional in the statement is needed.         *)
+(*                         -> <<10, 13>> "\n\r" ends the paragraph for str *)
+(*                            input (and "\rx:" would inject a field x)    *)
+(*   ReaderNoWsRule = TRUE (the READER treats whitespace-only lines as     *)
+(*                         separators although ws = FALSE was asked)       *)
+(*                         -> <<10, 9>>: a blank continuation line splits; *)
+(*                            the condition in the statement is needed.    *)
+(* Not modelled: the PGP armor state machine (an armor line gives st =     *)
+(* "pgp"; ReaderTotal shows it is unreachable from accepted values), the   *)
+(* fields= filter, apt_pkg, encodings other than UTF-8, Unicode case       *)
+(* folding of field names beyond ASCII.                                    *)
 (***************************************************************************)
 EXTENDS Naturals, Integers, Sequences, FiniteSets, TLC, Json
 
